@@ -230,6 +230,11 @@ func init() {
 					break
 				}
 				f := frame{Flags: env[0], Decl: uint32(env[1])<<24 | uint32(env[2])<<16 | uint32(env[3])<<8 | uint32(env[4])}
+				if f.Decl > 1<<24 {
+					reqOK = false
+					stuckAt.Store(fmt.Sprintf("handler: envelope %d announces %d bytes", k, f.Decl))
+					break
+				}
 				payload, err := readN(int(f.Decl))
 				if err != nil {
 					reqOK = false
